@@ -19,7 +19,7 @@ CONSTANTS
 
 (* ---- pools selected by the configs in cfg/ ---- *)
 K_one   == {[start |-> 3600, sfx |-> 1]}
-K_two   == {[start |-> 3600, sfx |-> 1], [start |-> 3600, sfx |-> 2]}
+K_two   == {[start |-> 3600, sfx |-> 0], [start |-> 3600, sfx |-> 2]}     \* sfx 0: the trip id is the bare 6 character prefix
 K_three == {[start |-> 3600, sfx |-> 2], [start |-> 7200, sfx |-> 1], [start |-> 3600, sfx |-> 1]}
 
 SeqsUpTo(S, n) == UNION {[1..k -> S] : k \in 0..n}
@@ -94,8 +94,15 @@ FeedOf(n, c) ==
              IN [i \in DOMAIN present |->
                    LET k == present[i] sh == Val(c[k])
                    IN MkUpdate(n, k, sh.stops, sh.veh, sh.pat, sh.route)]]
+(* sometimes the same UID twice in one feed (with another id prefix): both updates are applied, in order *)
+WithDuplicate(n, f) ==
+    LET k == KeySeq[1]
+        sh == RandomElement({x \in Shapes : Len(hist) >= 0})
+    IN IF IsSome(sh) /\ RandomElement({i \in 1..4 : Len(hist) >= 0}) = 1
+       THEN [f EXCEPT !.ups = Append(@, [MkUpdate(n, k, Val(sh).stops, Val(sh).veh, Val(sh).pat, Val(sh).route) EXCEPT !.pfx = 3])]
+       ELSE f
 NextRandom == /\ Len(hist) < MaxFeeds
-              /\ Step(FeedOf(Len(hist) + 1, TLCEval([k \in TripKeys |-> RandomElement({sh \in Shapes : Len(hist) >= 0})])))
+              /\ Step(TLCEval(WithDuplicate(Len(hist) + 1, FeedOf(Len(hist) + 1, TLCEval([k \in TripKeys |-> RandomElement({sh \in Shapes : Len(hist) >= 0})])))))
 SpecRandom == Init /\ [][NextRandom]_vars
 
 View == <<j, act, g, Len(hist)>>
@@ -110,9 +117,7 @@ InvC15 ==
 
 StepProps ==
     LET f == hist'[Len(hist')] IN
-    /\ OnePerUid(f)
-    /\ C14_Step(j, g, f, j')
-    /\ C15_SkippedNoOp(j, g, f, j')
+    /\ OnePerUid(f) => (C14_Step(j, g, f, j') /\ C15_SkippedNoOp(j, g, f, j'))
     /\ C15_AbsentOnlyMarks(j, f, j')
 PropSteps == [][StepProps]_vars
 
